@@ -206,6 +206,28 @@ def evaluate(ctx, scn):
                 ev.add(PROP, "marker", "%s:%s" % (context, "tapscript" if lst.n_commit() else sp),
                        "after `%s` the marker is on %s (entry %s) but the next step executes %s (entry %s)"
                        % (session.render_item(c.item) if c.item[0] != "blank" else "<blank>", shown, mk, want_desc, sorted(want) if want else None))
+        # clause 1b: the script pane of the step / rewind table lists exactly the operations still to be executed
+        if kind in ("step", "rewind") and rep == "accepted" and want not in ("skip",) and listing_ok and ("pane", context) not in reported \
+                and not (probe and probe.get("next") == "commit"):
+            pane = session.parse_pane(c.seg.out)
+            if pane is not None:
+                left, right, lcap = pane
+                ev.counters["probe:pane_checked"] += 1
+                start = min(want) if want else len(lst.entries)
+                exp = [(e[1] if e[0] != "commit" else None) for e in lst.entries[start:]]
+                ok_pane = len(left) == len(exp)
+                if ok_pane:
+                    for got, w_ in zip(left, exp):
+                        if w_ is None or got == w_:
+                            continue
+                        if len(w_) > lcap and got.endswith("...") and w_.startswith(got[:-3]):
+                            continue
+                        ok_pane = False
+                        break
+                if not ok_pane:
+                    reported.add(("pane", context))
+                    ev.add(PROP, "pane", context, "after `%s` the script pane lists %d entries starting with %r, %d operations remain starting with %r"
+                           % (kind, len(left), (left[0] if left else "")[:40], len(exp), (exp[0] or "" if exp else "")[:40]))
         # clause 3: the echo of step / rewind equals the marked line
         if kind in ("step", "rewind") and rep == "accepted" and ("echo", context) not in reported:
             marked_text = pr[mk][1] if mk is not None else None
